@@ -18,6 +18,18 @@ R   TLC enumerates, per instance, the plans inside the horizon that satisfy ever
     policy's decision space except precedence (EnumNext/EnumEmit = PlansViolatingOnly); each is
     fixed in a copy of the captured model, which must be INFEASIBLE
     -> C11.model_admits_violating_plan.
+
+Instance classes added in the second strengthening round (all go through T1, T2 and R):
+unpl_*  a co-offered predecessor that cannot be placed while its descendants can: it demands a resource type the
+        cluster does not have (two resource types r, q), more than any worker has, every worker that fits it is held by
+        a RUNNING task of another graph beyond the horizon / by a SCHEDULED task that cannot move, or its deadline is
+        hopeless under enforcement; chain2 (the source), chain3 (the MIDDLE task), join (one of two parents), diamond
+        (one branch); offered RELEASED or through release_taskgraphs / lookahead.  "child placed => all co-offered
+        parents placed" is judged on the returned plan, on the pool solutions and - the parent's only option being
+        "unplaced" - on every plan TLC enumerates with the child placed (they must all be infeasible in the model).
+multi   workers that list a capacity under several resource ids of one name ({r:g0:1, r:g1:1}, {r:g0:2, r:g1:1}).
+units   the same instances on a clock 1000 times coarser with runtimes / deadlines / release times / now /
+        discretisation handed to the code in different EventTime units (US, MS, S; same microsecond values).
 """
 from __future__ import annotations
 
@@ -33,9 +45,9 @@ NOW = 3
 LOOSE = NOW + 16
 
 CFG = {
-    "quick": dict(n_inst=32, chunks=8, pool_cap=100, pool_time=2, plan_cap=150, max_product=2500, tlc_timeout=300,
-                  judge_batch=100000, agree_small=0),
-    "thorough": dict(n_inst=1200, chunks=12, pool_cap=300, pool_time=4, plan_cap=2000, max_product=20000, tlc_timeout=3000,
+    "quick": dict(n_inst=60, chunks=14, pool_cap=100, pool_time=2, plan_cap=150, max_product=2500, tlc_timeout=300,
+                  judge_batch=300, agree_small=0),
+    "thorough": dict(n_inst=1600, chunks=14, pool_cap=300, pool_time=4, plan_cap=2000, max_product=20000, tlc_timeout=3000,
                      judge_batch=4000, agree_small=600),
 }
 
@@ -134,6 +146,115 @@ def build_instance(policy, shape, mode, workers, skind, grid=1, tight=False, ret
     return inst
 
 
+# ---------------------------------------------------------------------------
+# second strengthening round: a co-offered predecessor that CANNOT be placed while its descendants can
+#   why = missing  : it demands a resource type no worker of the cluster has
+#         big      : it demands more than any worker has
+#         held     : every worker that fits it is fully held by a RUNNING task of another graph beyond the horizon
+#         sched    : ... by a SCHEDULED task of another graph that cannot move (its deadline is its planned finish),
+#                    and the predecessor's own deadline is over before that task ends
+#         deadline : its deadline is already hopeless (enforce_deadlines)
+#   shapes: chain2 (the source), chain3 (the MIDDLE task), join (one of the two parents), diamond (one branch)
+# Two resource types (r, q); the ordinary tasks need r only.
+
+UNPL_BAD = {"chain2": 0, "chain3": 1, "join": 1, "diamond": 2}
+UNPL_WHY = ("missing", "big", "held", "sched", "deadline")
+
+
+def unplaceable_instance(policy, shape, why, offer, layout, split=None):
+    if policy == "Z3" and why in ("sched", "deadline"):
+        return None  # Z3: SCHEDULED tasks are outside its model, its deadline constraint is soft
+    parents = SHAPES[shape]
+    n = len(parents)
+    bad = UNPL_BAD[shape]
+    two = layout == "two"  # two workers
+    q_cap = 0 if why == "missing" else 1
+    workers = [[1, q_cap], [2, 0]] if two else [[2, q_cap]]
+    horizon = NOW + 8
+    tasks = []
+    for i, par in enumerate(parents):
+        st = [{"dem": [1, 0], "rt": 2}] if (policy == "Z3" or i % 2 == 0) else [{"dem": [1, 0], "rt": 2}, {"dem": [2, 0], "rt": 1}]
+        tasks.append(mk_task(par, st, state="REL", release=0, deadline=LOOSE))
+    b = tasks[bad]
+    if why == "missing":
+        b["strats"] = [{"dem": [0, 1], "rt": 2}] if not two else [{"dem": [1, 1], "rt": 2}]
+    elif why == "big":
+        b["strats"] = [{"dem": [3, 0], "rt": 2}] if (policy == "Z3" or two) else [{"dem": [3, 0], "rt": 2}, {"dem": [1, 2], "rt": 3}]
+    elif why == "held":
+        b["strats"] = [{"dem": [0, 1], "rt": 2}] if not two else [{"dem": [1, 1], "rt": 2}]
+        tasks.append(mk_task([], [{"dem": [0, 1] if not two else [1, 1], "rt": 30}], state="RUN", release=0, deadline=60, graph="H",
+                             cur={"w": 1, "s": NOW - 1, "k": 1}))
+    elif why == "sched":
+        b["strats"] = [{"dem": [0, 1], "rt": 2}]
+        b["deadline"] = NOW + 11
+        tasks.append(mk_task([], [{"dem": [0, 1], "rt": 12}], state="SCHED", release=0, deadline=NOW + 13, graph="H",
+                             cur={"w": 1, "s": NOW + 1, "k": 1}))
+    elif why == "deadline":
+        b["strats"] = [{"dem": [1, 0], "rt": 3}] if policy == "Z3" else [{"dem": [1, 0], "rt": 3}, {"dem": [1, 0], "rt": 5}]
+        b["deadline"] = NOW + 2
+    opts = {"rtg": policy == "ILP_RTG", "lookahead": 0, "retract": False, "plan_ahead": -1}
+    if policy == "TSG":
+        opts["retract"] = why != "sched"
+    if offer == "virt":
+        for i in range(n):
+            if parents[i]:
+                tasks[i]["state"], tasks[i]["release"] = "VIRT", -1
+        if policy == "ILP":
+            opts["lookahead"] = 20
+        else:
+            opts["rtg"] = True
+    name = f"{policy}/{shape}/unpl_{why}/{offer}/{layout}{'/' + split if split else ''}"
+    inst = mk_inst(name, policy, tasks, workers, now=NOW, horizon=horizon, grid=1, enforce=True, **opts)
+    if policy == "TSG":
+        inst["opts"]["plan_ahead"] = horizon - NOW
+    if split:
+        inst["wsplit"] = split
+    return inst
+
+
+def variant_instances():
+    """two classes of inputs on the ordinary shapes: workers that list a capacity under several resource ids of one
+    name (mode `multi`), times handed to the code in mixed EventTime units, same microsecond values (mode `units`)"""
+    out = []
+    for policy in POLICIES:
+        for shape in ("chain2", "join", "fork", "chain3"):
+            for split in ("ones", "uneven"):
+                for workers in ([2], [3], [2, 1]):
+                    i = build_instance(policy, shape, "rel" if shape != "chain3" else "virt", workers, "two" if policy != "Z3" else "one")
+                    if i is None:
+                        continue
+                    i = json.loads(json.dumps(i))
+                    parts = i["name"].split("/")
+                    i["name"] = "/".join(parts[:2] + ["multi"] + parts[2:] + [split])
+                    i["wsplit"] = split
+                    if workers == [3]:
+                        for t in i["tasks"]:
+                            t["strats"][0]["dem"] = 2  # two tasks do not fit side by side on 2 + 1
+                    out.append(i)
+        for shape in ("chain2", "join", "fork"):
+            for ux, units in enumerate((
+                {"rt": "MS", "deadline": "US", "release": "US", "now": "US", "grid": "US"},
+                {"rt": "US", "deadline": "MS", "release": "MS", "now": "MS", "grid": "MS"},
+                {"rt": "MS", "deadline": "S", "release": "US", "now": "MS", "cur": "MS", "grid": "US"},
+            )):
+                # (Z3 with a RUNNING parent is a known finding of its own: nothing to learn from it on another clock)
+                for mode in ("rel", "virt", "run") if policy != "Z3" else ("rel", "virt"):
+                    i = build_instance(policy, shape, mode, [2] if ux != 1 else [1, 1], "two" if (policy != "Z3" and ux != 2) else "one",
+                                       tight=(ux == 1))
+                    if i is None:
+                        continue
+                    i = json.loads(json.dumps(i))
+                    parts = i["name"].split("/")
+                    i["name"] = "/".join(parts[:2] + ["units"] + parts[2:] + [f"u{ux}"])
+                    cc.scale_times(i, 1000)
+                    if units["deadline"] == "S":
+                        for t in i["tasks"]:
+                            t["deadline"] = 1000000  # one second
+                    i["units"] = units
+                    out.append(i)
+    return out
+
+
 def fit_horizon(inst, max_product):
     """shrink the enumeration horizon until the raw decision space is small enough (the offered
     set is not known before the call: assume every non-placed task is decided)"""
@@ -141,8 +262,13 @@ def fit_horizon(inst, max_product):
     for t in probe["tasks"]:
         t["dec"] = t["state"] in ("REL", "VIRT", "SCHED")
     h = inst["horizon"]
-    while h > inst["now"] + 6 and cc.options_product(dict(probe, horizon=h)) > max_product:
-        h -= 1
+    step = inst["grid"]
+    if inst.get("units") and step == 1:
+        # microsecond decisions over milliseconds: no enumeration (R is skipped as too large), the horizon stays
+        inst["_product"] = max_product + 1
+        return inst
+    while h > inst["now"] + 6 * step and cc.options_product(dict(probe, horizon=h)) > max_product:
+        h -= step
     inst["_product"] = cc.options_product(dict(probe, horizon=h))
     inst["horizon"] = h
     if inst["policy"] == "TSG" and inst["opts"]["plan_ahead"] >= 0:
@@ -169,6 +295,18 @@ def all_instances():
                                     i = build_instance(policy, shape, mode, workers, skind, grid, tight, r)
                                     if i is not None:
                                         out.append(i)
+    for policy in POLICIES:
+        for shape in UNPL_BAD:
+            for why in UNPL_WHY:
+                for offer in ("rel", "virt"):
+                    for layout in ("one", "two"):
+                        for split in (None, "ones"):
+                            if split and (layout == "two" or why not in ("big", "held")):
+                                continue
+                            i = unplaceable_instance(policy, shape, why, offer, layout, split)
+                            if i is not None:
+                                out.append(i)
+    out += variant_instances()
     seen, uniq = set(), []
     for i in out:
         if i["name"] not in seen:
@@ -180,7 +318,7 @@ def all_instances():
 def quick_selection(insts, n, rnd, max_product):
     """every (policy, mode) pair, every shape, both strategy kinds, 1 and 2 workers; the rest seeded;
     instances whose decision space fits the enumeration bound are preferred"""
-    small = [i for i in insts if i.get("_product", 0) <= max_product]
+    small = [i for i in insts if i.get("_product", 0) <= max_product or i.get("units")]
     insts = small if len(small) >= n else insts
     by = {}
     for i in insts:
@@ -250,7 +388,7 @@ def run(tier: str) -> CheckResult:
     t_jobs = time.time() - t0
     recs = absorb(res, outs)
     t0 = time.time()
-    fails, stats, truns = cc.judge_parallel(recs, batch=cfg["judge_batch"], procs=cfg["chunks"])
+    fails, stats, truns = cc.judge_parallel(recs, batch=min(cfg["judge_batch"], max(100, -(-len(recs) // 14))), procs=cfg["chunks"])
     t_judge = time.time() - t0
     for tr in truns:
         res.states += tr["distinct"]
@@ -311,6 +449,18 @@ def run(tier: str) -> CheckResult:
     res.extra.update({
         "instances": len(insts),
         "instances_by_policy": {p: sum(1 for i in insts if i["policy"] == p) for p in POLICIES},
+        "instances_by_class": {c: sum(1 for i in insts if i["name"].split("/")[2] == c) for c in sorted({i["name"].split("/")[2] for i in insts})},
+        "instances_with_capacity_under_several_resource_ids": sum(1 for i in insts if i.get("wsplit")),
+        "instances_in_mixed_time_units": sum(1 for i in insts if i.get("units")),
+        "instances_with_two_resource_types": sum(1 for i in insts if cc.n_res(i) > 1),
+        "unplaceable_predecessor": {
+            "instances": sum(1 for i in insts if "/unpl_" in i["name"]),
+            "by_shape": {sh: sum(1 for i in insts if "/unpl_" in i["name"] and i["name"].split("/")[1] == sh) for sh in UNPL_BAD},
+            "returned_plans": sum(1 for r in recs if r["src"] == "returned" and "/unpl_" in r["inst"]["name"]),
+            "pool_solutions": sum(1 for r in recs if r["src"] == "pool" and "/unpl_" in r["inst"]["name"]),
+            "r_instances": sum(1 for o in outs for x in o["r"] if "/unpl_" in x["name"]),
+            "r_plans_fixed_in_model": sum(x["checked"] for o in outs for x in o["r"] if "/unpl_" in x["name"]),
+        },
         "records_returned": sum(1 for r in recs if r["src"] == "returned"),
         "records_pool": sum(1 for r in recs if r["src"] == "pool"),
         "counters": counters,
@@ -331,6 +481,8 @@ def run(tier: str) -> CheckResult:
     res.notes.append(
         "covered: ILP (task-by-task with RELEASED graphs / lookahead, and release_taskgraphs), TetriSched-Gurobi "
         "(retract on/off, discretisation 1-2, explicit and default plan_ahead), Z3 (one strategy per task: it reports none); "
+        "co-offered predecessors that fit no worker (resource type missing, demand too large, workers held by RUNNING / SCHEDULED tasks of "
+        "another graph, hopeless deadline) with placeable descendants; capacities listed under several resource ids; mixed EventTime units; "
         "T2/R on the captured Gurobi models and on the hard assertions of the captured z3.Optimize; TetriSched-CPLEX has no DAG support and is not part of C11"
     )
     res.assumptions += [
